@@ -568,6 +568,8 @@ def rule_bulk_accessors(ctx):
 
 
 def run(ctx):
+    from . import c15
+    c15.rule_leaf_occupancy(ctx)     # R15.13: a removed (flagged) particle stays reachable until the tree update drops it
     from . import pyrules
     pyrules.rule_selector_truthiness(ctx, 'R14.13', ('Particles', 'Simulation'))   # particle 0 and hash 0 are selectable
     pyrules.rule_wrapper_state(ctx, 'R18.10')      # the particle view is rebuilt from the C array on every access
